@@ -682,6 +682,17 @@ pub fn plat_name(op: &Op) -> String {
         None => PLAT_NAMES[((op.shape >> 6) & 7) as usize % PLAT_NAMES.len()].to_string(),
     }
 }
+/// an IOMMU offset issued by another, larger RIMT (offsets are plain values: the crate stores what it is given; the value
+/// names no node of the table under test, so C05 does not resolve it). Selector value 5 picks it.
+pub const FOREIGN_IOMMU_OFFSET: u32 = 48 + 32 * 29;
+pub fn foreign_iommu() -> rimt::IommuOffset {
+    let mut t = rimt::RIMT::new(*b"OTHER1", *b"OTHERTBL", 1);
+    let mut h = t.add_iommu(rimt::Iommu::new(0, None, None, None, None));
+    for i in 1..30u16 {
+        h = t.add_iommu(rimt::Iommu::new(i, None, None, None, None));
+    }
+    h
+}
 fn real_maps(f: &Fill, base: u8, shape: u16, hs: &[rimt::IommuOffset]) -> Option<Vec<rimt::IdMapping>> {
     let (nm, some, sv) = (nmaps(f, base, shape), shape & 4 != 0, (shape >> 3) & 7);
     if !some {
@@ -690,7 +701,7 @@ fn real_maps(f: &Fill, base: u8, shape: u16, hs: &[rimt::IommuOffset]) -> Option
     let mut v = vec![];
     for m in 0..nm {
         let b = base + 6 * (m % 4) as u8;
-        let h = hs[sel(sv, hs.len()).wrapping_add(m as usize) % hs.len()];
+        let h = if sv == 5 { foreign_iommu() } else { hs[sel(sv, hs.len()).wrapping_add(m as usize) % hs.len()] };
         v.push(rimt::IdMapping::new(f.u32(b), f.u32(b + 1), f.u32(b + 2), h, f.bool(b + 3), f.bool(b + 4), f.bool(b + 5)));
     }
     Some(crate::util::spare(v))
@@ -702,11 +713,15 @@ fn ref_maps(w: &mut W, out: &mut RefOut, f: &Fill, base: u8, shape: u16, hs: &[u
     }
     for m in 0..nm {
         let b = base + 6 * (m % 4) as u8;
-        let tgt = hs[sel(sv, hs.len()).wrapping_add(m as usize) % hs.len()];
         // source id base, destination id base, number of ids, destination IOMMU offset, flags (bit0 ATS, 1 PRI, 2 RCiEP)
         w.u32(f.u32(b)).u32(f.u32(b + 1)).u32(f.u32(b + 2));
-        out.refs.push(RefField { at: w.len(), width: 4, target: tgt, what: "destination IOMMU offset" });
-        w.u32(out.ents[tgt].off as u32);
+        if sv == 5 {
+            w.u32(FOREIGN_IOMMU_OFFSET);
+        } else {
+            let tgt = hs[sel(sv, hs.len()).wrapping_add(m as usize) % hs.len()];
+            out.refs.push(RefField { at: w.len(), width: 4, target: tgt, what: "destination IOMMU offset" });
+            w.u32(out.ents[tgt].off as u32);
+        }
         w.u32(f.bool(b + 3) as u32 | (f.bool(b + 4) as u32) << 1 | (f.bool(b + 5) as u32) << 2);
     }
 }
@@ -872,6 +887,9 @@ impl Table for Rimt {
             let x = Op { k: I_RC, shape: map_shape(0, true, if n % 2 == 0 { 0 } else { 7 }, 0), fill: Fill::b(2).with(SZ, n) };
             v.push((format!("root-complex[{} mappings]", n), vec![io, io, x, io, rc]));
         }
+        // mappings whose destination offset was issued by another (larger) table, with no IOMMU / one IOMMU of its own before
+        v.push(("foreign iommu offset, empty table".into(), vec![Op::new(I_RC, map_shape(2, true, 5, 0), 2), Op::new(I_PLAT, map_shape(1, true, 5, 1), 1), io, rc]));
+        v.push(("foreign iommu offset, later".into(), vec![io, Op::new(I_PLAT, map_shape(2, true, 5, 0), 2), Op::new(I_RC, map_shape(1, true, 5, 0), 1), io, rc]));
         let plat = |n: u64, t: u64, nm: u16| Op { k: I_PLAT, shape: map_shape(nm, true, 7, 0), fill: Fill::b(2).with(SZ, n).with(SX, t) };
         for n in 0..=300u64 {
             v.push((format!("platform[name {}]", n), vec![io, plat(n, 0, (n % 3) as u16), io, rc]));
